@@ -60,12 +60,6 @@ theorem map_ok_inv' {ε α β : Type} {r : Except ε α} {f : α → β} {b : β
 theorem quote_dq : isQuote '"' = true := by decide
 theorem quote_sq : isQuote '\'' = true := by decide
 
-theorem quoted_allow {s c : Str} (h : Quoted s c) : allowString s = true := by
-  obtain ⟨q, q', hq, hq', rfl⟩ := h
-  have h2 : (q :: (c ++ [q'])).getLast? = some q' := by
-    rw [← List.cons_append]; exact List.getLast?_concat
-  simp [allowString, h2, hq, hq']
-
 theorem quoted_unq {s c : Str} (h : Quoted s c) : unq s = c := by
   obtain ⟨q, q', _, _, rfl⟩ := h
   simp [unq]
@@ -100,20 +94,17 @@ theorem pyOp_cases {op : Str} {k : BinKind} (h : pyOpTable.lookup op = some k) :
 
 theorem step_cat (ops : FloatOps F) {a b ca cb : Str} (ha : Quoted a ca) (hb : Quoted b cb) :
     Good Refusal (step ops ['+'] (.str a) (.str b)) (.str (ca ++ cb)) := by
-  have h1 := quoted_allow ha
-  have h2 := quoted_allow hb
-  simp [step, h1, h2, Good]
-  exact Sim.str (quoted_cat ha hb)
+  by_cases h : (allowString a && allowString b) = true
+  · simp [step, h, Good]
+    exact Sim.str (quoted_cat ha hb)
+  · simp [step, h, Good, Refusal]
 
-theorem step_div_int (ops : FloatOps F) {a b : Int} {z : F} (h : ops.naiveDiv a b = .ok z) :
+theorem step_div_int (ops : FloatOps F) {a b : Int} {z : F} (h : ops.truediv a b = .ok z) :
     Good Refusal (step ops ['/'] (.int a) (.int b)) (.float z) := by
-  unfold FloatOps.naiveDiv at h
-  obtain ⟨x, hx, h⟩ := bind_ok_inv h
-  obtain ⟨y, hy, h⟩ := bind_ok_inv h
-  simp [step, toFloat, hx, hy, liftPy, calcF, calcTable, List.lookup, isArith, floatBin, h, Good, bind, Except.bind, pure, Except.pure]
+  simp [step, calcII, calcTable, List.lookup, h, liftPy, Except.map, Good]
   exact Sim.float z
 
-theorem step_good (m : Mode) (ops : FloatOps F) (hm1 : m.naiveDiv = true) {op : Str} {l r l' r' c : V F}
+theorem step_good (m : Mode) (ops : FloatOps F) {op : Str} {l r l' r' c : V F}
     (hl : Sim l l') (hr : Sim r r') (hp : pyBin m ops op l' r' = .ok c) :
     Good Refusal (step ops op l r) c := by
   unfold pyBin at hp
@@ -122,7 +113,7 @@ theorem step_good (m : Mode) (ops : FloatOps F) (hm1 : m.naiveDiv = true) {op : 
   · rename_i k hk
     rcases pyOp_cases hk with ⟨rfl, rfl⟩ | ⟨rfl, rfl⟩ | ⟨rfl, rfl⟩ | ⟨rfl, rfl⟩ | ⟨rfl, rfl⟩ | ⟨rfl, rfl⟩ | ⟨rfl, rfl⟩ | ⟨rfl, rfl⟩ | ⟨rfl, rfl⟩ | ⟨rfl, rfl⟩ <;>
     cases hl <;> cases hr <;>
-    simp [isArith, floatBin, intBin, strRepeat, hm1, Except.map, Except.bind, bind] at hp
+    simp [isArith, floatBin, intBin, strRepeat, Except.map, Except.bind, bind] at hp
     all_goals first
       | (subst hp; exact step_cat ops (by assumption) (by assumption))
       | (obtain ⟨z, hz, rfl⟩ := map_ok_inv' hp; exact step_div_int ops hz)
@@ -139,35 +130,28 @@ inductive SimL : List (V F) → List (V F) → Prop where
   | nil : SimL [] []
   | cons {a a' as as'} : Sim a a' → SimL as as' → SimL (a :: as) (a' :: as')
 
-theorem call_good (m : Mode) (ops : FloatOps F) (R : Err → Prop)
-    (h3 : m.noStrOfStr = true) (h5 : m.arityLe1 = true) (h5b : m.arityGe1 = false → R (.fatal .indexError))
+theorem call_good (m : Mode) (ops : FloatOps F) (R : Err → Prop) (hR : ∀ er, Refusal er → R er)
     {fn : Str} {args args' : List (V F)} {c : V F}
     (ha : SimL args args') (hp : pyCall m ops fn args' = .ok c) : Good R (onFuncCall ops fn args) c := by
-  have hfn : fn = ['i', 'n', 't'] ∨ fn = ['f', 'l', 'o', 'a', 't'] ∨ fn = ['s', 't', 'r'] := by
-    by_cases h1 : fn = ['i', 'n', 't']
-    · exact Or.inl h1
-    · by_cases h2 : fn = ['f', 'l', 'o', 'a', 't']
-      · exact Or.inr (Or.inl h2)
-      · by_cases h3 : fn = ['s', 't', 'r']
-        · exact Or.inr (Or.inr h3)
-        · simp [pyCall, h1, h2, h3] at hp
   cases ha with
-  | nil =>
-    by_cases hg : m.arityGe1 = true
-    · rcases hfn with rfl | rfl | rfl <;> simp [pyCall, hg] at hp
-    · simp at hg
-      have := h5b hg
-      rcases hfn with rfl | rfl | rfl <;> simp [onFuncCall, Good, this]
+  | nil => simp [onFuncCall, castArity, Good]; exact hR _ trivial
   | cons h1 hrest =>
     cases hrest with
-    | cons h2 hrest2 =>
-      rcases hfn with rfl | rfl | rfl <;> cases h1 <;> cases h2 <;> cases hrest2 <;> simp [pyCall, h5] at hp
+    | cons h2 hrest2 => simp [onFuncCall, castArity, Good]; exact hR _ trivial
     | nil =>
-      rcases hfn with rfl | rfl | rfl <;> cases h1 <;> simp [pyCall, h3, Except.map] at hp
+      have hfn : fn = ['i', 'n', 't'] ∨ fn = ['f', 'l', 'o', 'a', 't'] ∨ fn = ['s', 't', 'r'] := by
+        by_cases h1 : fn = ['i', 'n', 't']
+        · exact Or.inl h1
+        · by_cases h2 : fn = ['f', 'l', 'o', 'a', 't']
+          · exact Or.inr (Or.inl h2)
+          · by_cases h3 : fn = ['s', 't', 'r']
+            · exact Or.inr (Or.inr h3)
+            · simp [pyCall, h1, h2, h3] at hp
+      rcases hfn with rfl | rfl | rfl <;> cases h1 <;> simp [pyCall, Except.map] at hp
       all_goals (try (rename_i hq; have hu := quoted_unq hq))
       all_goals (repeat (split at hp <;> try (cases hp)))
       all_goals (try subst hp)
-      all_goals simp_all [onFuncCall, liftPy, Except.map, toFloat, Good, pyStrVal, pyStrOf]
+      all_goals simp_all [onFuncCall, castArity, liftPy, Except.map, toFloat, Good, pyStrVal, pyStrOf]
       all_goals first
         | exact Sim.int _
         | exact Sim.float _
@@ -235,32 +219,47 @@ theorem int_good (m : Mode) (R : Err → Prop) (h4 : m.lowerHex = false → R (.
         exact Sim.int n
   · cases hp
 
-theorem str_good (m : Mode) (h2 : m.plainStr = true) {tok c : Str}
-    (hp : pyStrLit m tok = .ok c) : Quoted tok c := by
-  unfold pyStrLit at hp
-  split at hp
-  · rename_i body hc
-    cases hp
-    unfold classifyStr at hc
-    split at hc
-    · rename_i q rest
-      split at hc
-      · rename_i hq
-        split at hc
-        · dsimp only at hc
-          split at hc <;> cases hc
-        · split at hc
-          · rename_i hlast
-            cases hc
-            simp only [Bool.and_eq_true, decide_eq_true_eq] at hlast
-            refine ⟨q, q, hq, hq, ?_⟩
-            rw [dropLast_getLast? hlast.1]
-          · cases hc
-      · cases hc
-    · cases hc
-  · simp [h2] at hp
-  · simp [h2] at hp
+theorem isQuote_cases {q : Char} (h : isQuote q = true) : q = '"' ∨ q = '\'' := by
+  simp [isQuote, Generated.EvalOps.quoteChars] at h
+  exact h
 
+/-- a plain token is its body between two quotes -/
+theorem plain_quoted {tok c : Str} (h : classifyStr tok = .plain c) : Quoted tok c := by
+  unfold classifyStr at h
+  split at h
+  · rename_i q rest
+    split at h
+    · rename_i hq
+      split at h
+      · split at h <;> cases h
+      · split at h
+        · rename_i hlast
+          cases h
+          simp only [Bool.and_eq_true, decide_eq_true_eq] at hlast
+          refine ⟨q, q, hq, hq, ?_⟩
+          rw [dropLast_getLast? hlast.1]
+        · cases h
+    · cases h
+  · cases h
+
+/-- `_allow_string` rejects every token CPython reads as triple-quoted -/
+theorem triple_not_allowed {tok c : Str} (h : classifyStr tok = .triple c) : allowString tok = false := by
+  unfold classifyStr at h
+  split at h
+  · rename_i q rest
+    split at h
+    · rename_i hq
+      split at h
+      · rename_i hcond
+        simp only [Bool.and_eq_true, decide_eq_true_eq] at hcond
+        obtain ⟨⟨hlen, htake⟩, hdrop⟩ := hcond
+        unfold allowString
+        rw [htake, hdrop]
+        rcases isQuote_cases hq with rfl | rfl <;> simp [longQuoteMinLen, longQuotes] <;>
+          (intro h1; simp only [List.length_cons] at hlen; omega)
+      · split at h <;> cases h
+    · cases h
+  · cases h
 
 /-! ## flat chains -/
 
@@ -339,7 +338,7 @@ theorem rest_err : ∀ (rest : List (Str × Expr)) (a' v' : V F), pyFold m ops k
         | ok vs => rw [hm] at h; cases h
 
 /-- the fold over similar operands -/
-theorem rest_ok (hm1 : m.naiveDiv = true) : ∀ (rest : List (Str × Expr)) (a a' v' : V F) (xs : List (Str × V F)), Sim a a' →
+theorem rest_ok : ∀ (rest : List (Str × Expr)) (a a' v' : V F) (xs : List (Str × V F)), Sim a a' →
     pyFold m ops known venv a' rest = .ok v' → mapRest f rest = .ok xs → Good R (opBinEach ops a xs) v' := by
   intro rest
   induction rest with
@@ -362,7 +361,7 @@ theorem rest_ok (hm1 : m.naiveDiv = true) : ∀ (rest : List (Str × Expr)) (a a
     have := onTerminal_ok ht; subst this
     have hg := ih e b hb
     rw [hf] at hg
-    have hst := step_good m ops hm1 hs hg hc
+    have hst := step_good m ops hs hg hc
     simp only [opBinEach]
     cases hstep : step ops op' a v with
     | error er => rw [hstep] at hst; exact hR er hst
@@ -443,9 +442,7 @@ theorem Cons.lookup {m : Mode} {ops : FloatOps F} {env : Env} {venv : VEnv F} (h
     · exact ih h
 
 theorem sound_core (m : Mode) (ops : FloatOps F) (env : Env) (R : Err → Prop)
-    (h1 : m.naiveDiv = true) (h2 : m.plainStr = true) (h3 : m.noStrOfStr = true) (h5 : m.arityLe1 = true)
-    (hR : ∀ er, Refusal er → R er)
-    (h4 : m.lowerHex = false → R (.fatal .valueError)) (h5b : m.arityGe1 = false → R (.fatal .indexError)) :
+    (hR : ∀ er, Refusal er → R er) (h4 : m.lowerHex = false → R (.fatal .valueError)) :
     ∀ (fuel : Nat) (e : Expr) (venv : VEnv F) (v' : V F), Cons m ops env venv →
       evalPy m ops env.known venv (toPy e) = .ok v' → Good R (execImpl ops env fuel e) v' := by
   intro fuel
@@ -470,8 +467,18 @@ theorem sound_core (m : Mode) (ops : FloatOps F) (env : Env) (R : Err → Prop)
     | string tok =>
       simp only [toPy, evalPy] at hp
       obtain ⟨c, hcs, rfl⟩ := map_ok_inv' hp
-      simp only [execImpl, Good]
-      exact Sim.str (str_good m h2 hcs)
+      simp only [execImpl]
+      unfold pyStrLit at hcs
+      split at hcs
+      · rename_i body hcl
+        cases hcs
+        split
+        · exact Sim.str (plain_quoted hcl)
+        · exact hR _ trivial
+      · rename_i body hcl
+        rw [triple_not_allowed hcl]
+        exact hR _ trivial
+      · cases hcs
     | factor op e =>
       simp only [toPy, evalPy] at hp
       obtain ⟨w, hw, hu⟩ := bind_ok_inv hp
@@ -520,7 +527,7 @@ theorem sound_core (m : Mode) (ops : FloatOps F) (env : Env) (R : Err → Prop)
           | error er =>
             exact rest_err m ops env.known venv R _ hR (fun e v' h => ih e venv v' hc h) rest a' v' hfold er hm
           | ok xs =>
-            exact rest_ok m ops env.known venv R _ hR (fun e v' h => ih e venv v' hc h) h1 rest a a' v' xs hg hfold hm
+            exact rest_ok m ops env.known venv R _ hR (fun e v' h => ih e venv v' hc h) rest a a' v' xs hg hfold hm
       · exact hR _ trivial
     | group e =>
       simp only [toPy] at hp
@@ -538,7 +545,7 @@ theorem sound_core (m : Mode) (ops : FloatOps F) (env : Env) (R : Err → Prop)
           exact args_err m ops env.known venv R _ (fun e v' h => ih e venv v' hc h) args vs' hvs er hm
         | ok vs =>
           have hs := args_ok m ops env.known venv R _ (fun e v' h => ih e venv v' hc h) args vs' vs hvs hm
-          exact call_good m ops R h3 h5 h5b hs hcall
+          exact call_good m ops R hR hs hcall
     | var key tyErr =>
       simp only [toPy, evalPy] at hp
       simp only [execImpl]
